@@ -53,6 +53,16 @@ def run(tier):
         for k in range(8):
             ops = [dict(at=300, op='rerun', reset=bool(k % 2), pick=0), dict(rel=2 + k % 4, op='dup', method='start_task', task='r/%s#0' % tname, pick=k // 4)]
             jobs.append(dict(prog=P, scheduler=('default', 'legacy')[k % 2], policy=engrun.POLICIES[1:][k % 7], seed=k + 1, label='dup_rerun_start_' + nm, ops=ops, max_steps=900))
+    # an action reports "cancelled" (task and execution CANCELLED); the task is rerun; the old result is redelivered while the new
+    # attempt is running
+    for k in range(8):
+        P = gen.Program()
+        P.order = ['a', 'b']
+        P.tasks = {'a': {'kind': 'action', 'succ': [{'to': 'b'}], 'err': [], 'comp': []}, 'b': {'kind': 'action', 'succ': [], 'err': [], 'comp': []}}
+        P.oracle = {'a': ['cancel', 'ok'], 'b': ['ok']}
+        ops = [dict(at=300, op='rerun', reset=bool(k % 2), cancelled=True, pick=0),
+               dict(rel=1 + k % 4, op='dup', method='on_action_complete', task=None, pick=0)]
+        jobs.append(dict(prog=P, scheduler=('default', 'legacy')[k % 2], policy=engrun.POLICIES[1:][k % 7], seed=k + 1, label='dup_cancel_result_after_rerun', ops=ops, max_steps=900))
     from harness.checks import c06_executor
     return ec.run_property(PID, tier, jobs,
                            'generated programs with up to 2 messages (action results, start-task requests, start requests, run-action '
